@@ -238,7 +238,19 @@ fn gen_case(rng: &mut Rng, probe: &dyn Fn(Lay) -> Vec<String>) -> Case {
 
 fn write_ac(root: &Path, content: &str, mtime: SystemTime) {
     let p = autocorrect_file(root);
-    std::fs::write(&p, content).unwrap();
+    // editors differ: rewrite in place, write aside and rename over, or remove and create (chosen by the content's length)
+    match content.len() % 3 {
+        0 => std::fs::write(&p, content).unwrap(),
+        1 => {
+            let tmp = p.with_extension("edit");
+            std::fs::write(&tmp, content).unwrap();
+            std::fs::rename(&tmp, &p).unwrap();
+        }
+        _ => {
+            let _ = std::fs::remove_file(&p);
+            std::fs::write(&p, content).unwrap();
+        }
+    }
     let f = std::fs::File::options().write(true).open(&p).unwrap();
     f.set_modified(mtime).unwrap();
 }
@@ -441,7 +453,7 @@ impl Prop for C11 {
     }
     fn rule(&self) -> String {
         "random triples (configuration before, history, configuration after): layouts phonetic / Probhat / synthetic / a second file called Probhat.json in another directory with keys exchanged, random options; in a third of the cases the context first passes through 1-2 intermediate configurations (single flips or other layouts, optionally a word typed under each) and then often returns to the first layout or configuration; each update_engine receives either a newly built configuration object or the session's own object changed through its setters (all setters or only the changed ones, in either order); the new configuration is a single option flip on the same layout (1/4), 2-3 flips (1/8), the same configuration (pure reload, 1/8) or a random configuration on a random layout (1/2); \
-         before the update: 0-4 words typed and finished or committed (learning commits included), 0-2 rewrites of the user auto-correct file (9 documents incl. empty object, an empty-string value and three damaged ones) with explicitly increasing mtime (by 2 s, 10 ms or 1 us), optionally an update_engine with the same configuration and another word; \
+         before the update: 0-4 words typed and finished or committed (learning commits included), 0-2 rewrites of the user auto-correct file (9 documents incl. empty object, an empty-string value and three damaged ones) with explicitly increasing mtime (by 2 s, 10 ms or 1 us), written in place / aside and renamed over / removed and created, optionally an update_engine with the same configuration and another word; \
          after the update: 1-6 words (incl. number-pad keys, a word with a bundled auto-correct entry, suffixed words), half of them words already typed before the edit, plus probe words built from the new layout's file for every composition helper (all eight after a single-option flip, two otherwise), typed in the updated context and in a context newly created with the new configuration over the same user files; every key's rendering, the flag and the commits are compared; then both contexts are re-configured once more (suggestions on) and the same words are typed again and compared. \
          distinct_nontrivial = distinct (configuration pair, history shape, continuation words) triples compared."
             .into()
